@@ -41,8 +41,8 @@ m("nuts-accept-ratio-inverted", "C03 C06", N, "T::from(n_prime).expect(\"success
 m("nuts-adopt-from-stopped-subtree", "C03 C14", N, "if s_prime && (u_run_2 < tmp) {\n                self.position = position_prime;", "if u_run_2 < tmp {\n                self.position = position_prime;")
 m("nuts-inner-uturn-skipped", "C03", N, "            s_prime = s_prime\n                && s_prime_2\n                && stop_criterion(\n                    position_minus.clone(),\n                    position_plus.clone(),\n                    mom_minus.clone(),\n                    mom_plus.clone(),\n                );\n            alpha_prime", "            s_prime = s_prime && s_prime_2;\n            alpha_prime")
 m("nuts-alpha-whole-tree", "C03 C04", N, "                    alpha = alpha_2;\n                    n_alpha = n_alpha_2;\n\n                    (position_prime_2, n_prime_2, s_prime_2)\n                } else {", "                    alpha = alpha + alpha_2;\n                    n_alpha += n_alpha_2;\n\n                    (position_prime_2, n_prime_2, s_prime_2)\n                } else {")
-m("nuts-direction-bias", "C03 C06", N, "let v = (2 * (u_run_1 < T::from(0.5).unwrap()) as i8) - 1;", "let v = (2 * (u_run_1 < T::from(0.9).unwrap()) as i8) - 1;")
-m("nuts-slice-uniform-instead-of-exp", "C03 C06", N, "let exp1_obs = self.rng.sample(Exp1);", "let exp1_obs: T = self.rng.random::<T>();")
+m("nuts-direction-bias", "C03", N, "let v = (2 * (u_run_1 < T::from(0.5).unwrap()) as i8) - 1;", "let v = (2 * (u_run_1 < T::from(0.9).unwrap()) as i8) - 1;")
+m("nuts-slice-uniform-instead-of-exp", "C03", N, "let exp1_obs = self.rng.sample(Exp1);", "let exp1_obs: T = self.rng.random::<T>();")
 # ---- C04
 m("da-t0-1", "C04", N, "            t_0: 10,", "            t_0: 1,")
 m("da-kappa", "C04", N, "kappa: T::from(0.75).unwrap(),", "kappa: T::from(0.5).unwrap(),")
